@@ -614,7 +614,7 @@ class Gen:
             m = _M()
             m.group = lambda i, cparams=cparams: cparams
             names_old = [x.strip().split(':')[0].strip() for x in m.group(1).split(',') if x.strip()]
-            names_new = [x.strip().split(':')[0].strip() for x in c['params'].split(',') if x.strip()]
+            names_new = re.findall(r'(?:^|,)\s*(\w+)\s*:', re.sub(r'<[^<>]*>', '', re.sub(r'<[^<>]*>', '', c['params'])))
             if names_old != names_new and not (names_old == ['_'] ):
                 raise LostAnchor('closure #%d of %s has parameters %s, contract expects %s' % (c['k'], sel, names_old, names_new))
             body = self.clause_lines(fnname, 'closure%d' % c['k'], c['text'], props)
